@@ -283,7 +283,9 @@ def run(ctx):
     refobj = {k: Obj("ref_" + k) for k in dep}
     all_events = [("a", Obj("event_a", obj=S, name="a")), ("b", Obj("event_b", obj=S, name="b"))]
     n_cases, bad = 0, []
+    SKIP = Obj("Skip")
     for r in (1, 2):
+      for skipping in (None, "x", "y"):
         for combo in itertools.permutations(all_events, r):
             evs = [e for _, e in combo]
             got = {}
@@ -297,6 +299,10 @@ def run(ctx):
                 if fn == "resolve_value":
                     for k, ro in refobj.items():
                         if args and args[0] is ro:
+                            if k == skipping:
+                                # this reference (a bind / depends function) raises Skip for the current values
+                                from engine.absint import _Raise
+                                raise _Raise("Skip")
                             return Obj("value_" + k)
                     return Obj("value_?")
                 if fn in ("inspect.isgeneratorfunction", "iscoroutinefunction"):
@@ -309,7 +315,7 @@ def run(ctx):
                 return NotImplemented
             inst = Obj("target", _param__private=Obj("private", refs={k: refobj[k] for k in ("x", "y", "z")}))
             ns = Obj("ns", self=inst)
-            it = Interp(ctx.hier, call_hook=hook, globals={"Skip": Obj("Skip"), "Undefined": Obj("Undefined")})
+            it = Interp(ctx.hier, call_hook=hook, globals={"Skip": SKIP, "Undefined": Obj("Undefined")})
             try:
                 outs = it.run_all(sr, {"self_": ns, "events": evs})
             except Unsupported as e:
@@ -319,12 +325,16 @@ def run(ctx):
                 if o.imprecise:
                     raise AnalysisError("absint imprecise on _sync_refs (%s): %s -- R08.e cannot decide" % ([n for n, _ in combo], o.notes[:2]))
             want = {"x"} if [n for n, _ in combo] == ["a"] else ({"y"} if [n for n, _ in combo] == ["b"] else {"x", "y"})
-            if set(got) != want:
-                bad.append(([n for n, _ in combo], sorted(got), sorted(want)))
+            want -= {skipping}
+            if any(o.kind != "return" for o in outs):
+                bad.append(([n for n, _ in combo], "an exception (%s)" % outs[0].value, sorted(want), skipping))
+            elif set(got) != want:
+                bad.append(([n for n, _ in combo], sorted(got), sorted(want), skipping))
     ctx.abstract_cases += n_cases
     if bad:
-        ctx.fail("R08.e", sr, sr.node, "with events %s from one source _sync_refs re-resolves the links %s, specification %s: a link whose source parameter changed in the same batch "
-                                       "as another is skipped and keeps a stale value" % bad[0], key=sr.qualname + "::event-matching",
+        ctx.fail("R08.e", sr, sr.node, "with events %s from one source _sync_refs re-resolves the links %s, specification %s%s: a link whose source parameter changed in the same batch "
+                                       "as another is skipped and keeps a stale value" % (bad[0][0], bad[0][1], bad[0][2], " (the reference of %s raises Skip: that parameter alone is left as it is)" % bad[0][3] if bad[0][3] else ""),
+                 key=sr.qualname + "::event-matching",
                  input="t = T(x=s.param.a, y=s.param.b); s.param.update(a=2, b=2) -> t.x stays stale")
     else:
         ctx.ok("R08.e", sr, sr.node, "%d/%d event sets: exactly the links with a matching dependency are re-resolved (a link on another owner with the same name is not)" % (n_cases, n_cases))
